@@ -519,6 +519,11 @@ func pipeQ(f []string) vlib.Res {
 			or = append(or, v)
 		}
 		rec := newRec(p.spec, qid, cd, uopts, uhas, st.seen)
+		for _, o := range p.ledger {
+			if o.qid == qid && o.cd == cd && o.eff > 0 {
+				tags = "nt,miss-beside-scoped-entry"
+			}
+		}
 		p.ledger[ans] = rec
 		e := p.findEntry(ans)
 		stS, ttlS, pfS := "none", "-", "-"
@@ -534,7 +539,7 @@ func pipeQ(f []string) vlib.Res {
 			}
 		}
 		if rec.eff > 0 {
-			tags = "nt"
+			tags = strings.TrimPrefix(tags+",nt,stored-scoped", ",")
 		}
 		impl = fmt.Sprintf("up=%s ans=%d ropt=%s st=%s ttl=%s pf=%s", renderOpts(st.seen, true), served, ropt, stS, ttlS, pfS)
 	} else {
@@ -546,8 +551,10 @@ func pipeQ(f []string) vlib.Res {
 		if v := checkServed(p.spec, p.cap, rec, c, copts, qid, cd, servedTTL); v != "" {
 			or = append(or, v)
 		}
-		if len(p.ledger) > 1 {
-			tags = "nt"
+		if rec != nil && rec.eff > 0 {
+			tags = "nt,hit-scoped"
+		} else if len(p.ledger) > 1 {
+			tags = "nt,hit-shared"
 		}
 		impl = fmt.Sprintf("up=hit ans=%d ropt=%s st=- ttl=- pf=-", served, ropt)
 	}
